@@ -226,41 +226,43 @@ chk("C10", "fault_enumeration",
 EXTRA = {
     "C01": " Every public route to the verdict is asked the same question: relaxed mode, inspect_* + verify_*_at, the detached-EE pair, and - for "
            "behaviours whose evaluation instant lies strictly between two certificate times, with the instants placed around the wall clock - the "
-           "clock-reading entry points validate_* / verify_* / verify_ta_ref. The evaluation instant reaches the validators built, through Time::new, and parsed from RFC 3339 text in three zones in turn.",
+           "clock-reading entry points validate_* / verify_* / verify_ta_ref. The evaluation instant reaches the validators built, through Time::new, and parsed from RFC 3339 text in three zones in turn. A claim listed with a block nested in its predecessor (patched DER, re-signed) is validated whole or refused.",
     "C02": " The model also carries the address family the ROA coverage facet lives in (v4, v6, each with or without the other family), the EE "
            "certificate's overclaim policy (trim: claim trimmed to two pieces, prefixes in the later one), a signer identifier with a trailing octet, "
            "the CRL facet for generic objects and the size class of 65535 bytes; every object is decided through process, validate, validate_at and "
-           "decode_if_type + validate. ASPA objects also live under the trimming policy (the claim is one AS span across a gap in the issuer's holdings; the deviating customer lies in the gap), and the EE facet resbad puts, after a well-formed block that covers the object, an element whose bounds are the wrong way round.",
+           "decode_if_type + validate. ASPA objects also live under the trimming policy (the claim is one AS span across a gap in the issuer's holdings; the deviating customer lies in the gap), and the EE facet resbad puts, after a well-formed block that covers the object, an element whose bounds are the wrong way round. Every object also comes in the four forms of its two SHA-256 algorithm identifiers (parameters absent / NULL); the EE facet overclaim has the EE certificate carry exactly the extensions of an issuer whose own claim was trimmed; EE windows have just begun / just ended.",
     "C03": " Every obtained set is additionally swept through the rest of the public surface: IpBlocks::from_str, per-block text forms, builders "
-           "fed by push and Extend, all(), iter_asns, intersection_assign, verify_covered, and ResourceSet difference / contains_asn / from_strs / serde. ResBuilder.tla models the resource builders as state machines (inherit() / blocks() in any sequence, finalize()): BuilderLaw for the bare builders, TbsLaw for the certificate under construction; every call sequence is replayed through AsResourcesBuilder, IpResourcesBuilder and TbsCert.",
+           "fed by push and Extend, all(), iter_asns, intersection_assign, verify_covered, and ResourceSet difference / contains_asn / from_strs / serde. ResBuilder.tla models the resource builders as state machines (inherit() / blocks() in any sequence, finalize()): BuilderLaw for the bare builders, TbsLaw for the certificate under construction; every call sequence is replayed through AsResourcesBuilder, IpResourcesBuilder and TbsCert. ResourceSet is also exercised with its three families crossed (the same numbers in IPv4 and IPv6), and block lists of 65..140 blocks go through FromIterator, the builders and text in turn.",
     "C04": " The corpus includes objects with 65535 / 65536 / 65537 bytes of signed attributes, a manifest whose names use the whole RFC 9286 alphabet "
            "at first and last position, TALs through read / read_dir / TalUri's parsers and RTAs taken apart again (RtaBuilder::from_rta); time "
-           "budgets are processor time per input. Decoders.tla lists every shape of a certificate's three resource extensions (missing / inherit / blocks); each is built as CA and EE certificate, decoded, swept and converted (ResourceSet::try_from: an error exactly when something is inherited, never a panic).",
+           "budgets are processor time per input. Decoders.tla lists every shape of a certificate's three resource extensions (missing / inherit / blocks); each is built as CA and EE certificate, decoded, swept and converted (ResourceSet::try_from: an error exactly when something is inherited, never a panic). The iterator protocol beyond next (size_hint, nth near and far, skip, step_by, last) is exercised on every decoded value's iterators, and containment / set operations run against parts of the decoded blocks themselves.",
     "C05": " Builders are fed through every public route (ASPA one provider at a time, ROA typed / per-family pushes and slices), resources include "
-           "touching blocks given out of order, and the accessor table covers CSR, identity-certificate, manifest-entry, CRL-structure and ROA-entry views.",
+           "touching blocks given out of order, and the accessor table covers CSR, identity-certificate, manifest-entry, CRL-structure and ROA-entry views. ROA prefixes may share a first address; objects are also validated under an issuer holding exactly what they need, and a built ROA's prefixes must lie inside its own certificate's resources.",
     "C06": " Behaviours are run under two realisations of the model's payload items (ordinary values; host prefixes /32 and /128, one octet of key "
-           "information, AS 0 and 2^32-1). RtrSession has NotifyCross: the source notifies just as the client's query goes out (the real server writes its Serial Notify ahead of the response); such a step may fail, and if it finishes it must finish with the source's data. Timing values include retry = expire and refresh > expire; the source's router key walks through every key-information length from 1 to 300.",
+           "information, AS 0 and 2^32-1). RtrSession has NotifyCross: the source notifies just as the client's query goes out (the real server writes its Serial Notify ahead of the response); such a step may fail, and if it finishes it must finish with the source's data. Timing values include retry = expire and refresh > expire; the source's router key walks through key-information lengths from 1 to 1300; session ids in the edge realisation are small numbers (error codes elsewhere); a provider may be named twice in a row.",
     "C07": " The reader automaton covers all 27 fixed-size readers (read / try_read / read_payload of nine PDU structs) and open, silent streams "
            "(a reader may wait only for bytes its header announced); PDUs around and beyond 64 KiB, queries read by the real server connection "
            "under every fragmentation, and one driven client session per version pairing are included. RtrClientStream.tla is the session-level "
            "reader: a cache that speaks one version answers up to 2/3 update() calls with conforming replies (data, Cache Reset, version downgrade) "
            "or deviates in one place (version, type or length field of one PDU or of a Serial Notify, or the stream ends between or inside PDUs); "
            "TLC checks OkMeansClean, ErrMeansDirty, StopsAtBad, VersionStable and termination, and every conversation is run through the real Client "
-           "on a scripted socket that hands out seven octets at a time (session ids include numbers that are error codes or flags in other PDU types); recorded random conversations are explained by Trace_RtrClientStream; every key-information length 1..320 and provider count 0..80 is written and read back.",
+           "on a scripted socket that hands out seven octets at a time (session ids include numbers that are error codes or flags in other PDU types); recorded random conversations are explained by Trace_RtrClientStream; every key-information length 1..320 and provider count 0..80 is written and read back; ASPA PDUs of 1023..5000 providers are cut at 18 places each.",
     "C09": " Hostile streams include endless runs of small comments, processing instructions and CDATA sections (no element starts, so no fresh "
-           "budget is due); every hostile stream ends at twice the limit in force.",
+           "budget is due); every hostile stream ends at twice the limit in force. Objects include one of 9 MiB as a document of its own and elements whose hash is that of their own data.",
     "C10": " The content is a real RFC 6492 / 8181 message and every case is also decided by ProvisioningCms / PublicationCms (decode, validate_at, "
-           "validate) and SignedMessage::validate with the instants around the wall clock; windows whose ends are the wrong way round are facets. The signer's random octets (the EE serial number) are scripted to leading zeros followed by 0x01 / 0x7f / 0x80 / 0x81 / 0xff; with the instants around the wall clock every case is also run with windows that have just begun resp. just ended.",
+           "validate) and SignedMessage::validate with the instants around the wall clock; windows whose ends are the wrong way round are facets. The signer's random octets (the EE serial number) are scripted to leading zeros followed by 0x01 / 0x7f / 0x80 / 0x81 / 0xff; with the instants around the wall clock every case is also run with windows that have just begun resp. just ended. RSA identity and one-off keys of 3072 / 4096 bits, a second library-created message with a later end under the same key, and the four algorithm-identifier forms are included.",
     "C12": " Every parser entry point (from_str, from_slice, from_string, from_bytes, TryFrom, parse, serde) must keep the text byte for byte; byte "
-           "accessors, ends_with and path_into_dir are compared with the model. A third pairs configuration has authorities with the schemes' default ports (host:443 is not host).",
+           "accessors, ends_with and path_into_dir are compared with the model. A third pairs configuration has authorities with the schemes' default ports (host:443 is not host). A fourth rendering has labels of 33 octets (authorities past 64 and 96 octets).",
     "C13": " Windows include IPv4-mapped IPv6 addresses; route origins written as struct expressions meet those made by new() in every pairing.",
     "C14": " Every 25th content is also wrapped in a real signed manifest (Manifest::decode strict / relaxed must agree with ManifestContent::take_from); "
-           "size_hint of the list iterators must bracket what they yield; manifests written with unreal times must not decode.",
+           "size_hint of the list iterators must bracket what they yield; manifests written with unreal times must not decode. ManifestHash::verify is asked about objects of 64 sizes from 0 to 1 MiB, each also one octet short and with its last octet changed.",
     "C15": " Assertion lists with several entries of every kind and repeats are included, expectations are written from raw data (not through the "
            "library's constructors), and IPv4-mapped IPv6 prefixes are a fourth rendering. SlurmAssert.tla grows the assertion lists one assertion "
            "at a time out of 222 (prefix / maximum length classes, AS 0 and 2^32-1, key information of 0..4 octets, provider lists empty, unsorted, "
            "repeating); every list is replayed (iter_payload item by item, JSON there and back); every way in and out of a file (from_str, from_reader whole and in pieces, to_writer) must agree.",
     "C16": " Every PDU that carries a serial number must put it on the wire big-endian and hand it back through each accessor. ... and is read back from a stream that delivers 64, 3 and 1 octets at a time; one driven client/server session whose serials start sixteen below 2^32 is validated against C06's session model.",
+    "C08": " Serial Notify PDUs carry their version in the model (OneVersion); the End of Data layout per version and one version per response are checked on the octets; every third case the client is slow (the socket has room for 1..11 octets at a time).",
+    "C11": " URI fields come in plain, capitals and (service URI) https spellings, tags and class names reach 1024 characters; documents are also written into a sink that takes five octets per call and read through a reader that gives three; one issued certificate has 190 KiB; root elements in foreign (very short, truncated, empty) namespaces are among the fault plans.",
     "C17": " Serial numbers are replayed at every length from 1 to 20 octets through every conversion (array, String, integer constructors); "
            "Validity::verify is asked against the wall clock. DER is taken from the captured form and through writers that accept one and five octets per call; an instant read from RFC 3339 text does not depend on the zone it is written in.",
 }
